@@ -101,7 +101,10 @@ class StorageTools:
     @staticmethod
     def writeProfileData(profile_name, name, val):
         logger.debug("writeProfileData(profile_name=%s, name=%s, val=[omitted])" % (profile_name, name))
-        path = os.path.join(StorageTools.getStorageForProfile(profile_name), name)
+        storage = StorageTools.getStorageForProfile(profile_name)
+        if not os.path.isdir(storage):
+            os.makedirs(storage)
+        path = os.path.join(storage, name)
         logger.debug("Writing %s" % path)
 
         with open(path, 'w' if type(val) is str else 'wb') as attrFile:
